@@ -71,6 +71,8 @@ def strategy(tier):
         if mode == "positive":
             # the state may also be one made by the combining constructors (immutable; Stack.build has NaN thresholds)
             case["built"] = draw(st.sampled_from((None, None, "stack", "stack3", "fraction")))
+            # ... or a state derived from another one (emptied, reloaded and emptied, scaled away, doubled)
+            case["derive"] = draw(st.sampled_from(("none", "none", "zero", "reload-zero", "reload-times0", "reload-timesnan", "times0", "plus-self", "reload-plus-self")))
             if case["built"]:
                 s2, _ = draw(gen.streams(spec, max_rows=8, focus=focus))
                 case["stream2"] = [[r, w] for r, w in s2]
@@ -207,6 +209,13 @@ def check(case):  # noqa: PLR0912, PLR0915
                 a2 = fill(build(spec), case["stream2"])
                 a = {"stack": lambda: hg.Stack.build(a, a2), "stack3": lambda: hg.Stack.build(a, a2, a.copy()), "fraction": lambda: hg.Fraction.build(a, a2)}[built]()
                 labels.append("built:" + built)
+            how = case.get("derive", "none")
+            if how != "none":
+                if how.startswith("reload-"):
+                    a = hg.Factory.fromJson(a.toJson())
+                    how = how[len("reload-"):]
+                a = {"zero": lambda: a.zero(), "times0": lambda: a * 0.0, "timesnan": lambda: a * float("nan"), "plus-self": lambda: a + a}[how]()
+                labels.append("derived:" + case["derive"])
             r = hg.Factory.fromJson(a.toJson())
             pairs = [("self", a, a), ("copy", a, a.copy()), ("pickle", a, pickle.loads(pickle.dumps(a))), ("reload", a.toImmutable(), r), ("reload-copy", r, r.copy())]
             for what, x, y in pairs:
